@@ -172,29 +172,57 @@ MALFORMED = ["#include", "#include ", "#include B C", "#includeB", " #include B"
 NAMES = "ABCDEFGHIJKL"
 
 
-def long_line(rng, target):
-    """comma separated plain names, total length exactly `target` bytes; long lines are built from long
-    names so that the list stays small enough to be observed through `-R exec` (one fork per host)"""
-    namelen = 8 if (target <= 2700 and rng.random() < 0.3) else rng.choice([60, 120, 250])
-    parts, n, total = [], rng.randrange(1, 9000), 0
-    while True:
-        w = ("node%04d" % n) if namelen == 8 else ("n%04d" % n) + "x" * (namelen - 5)
-        if total + len(w) + (1 if parts else 0) > target:
-            break
-        total += len(w) + (1 if parts else 0)
-        parts.append(w)
-        n += 1
-    line = ",".join(parts)
-    pad = target - len(line)
-    if pad > 1:
-        line += "," + "p" * (pad - 1)
-    elif pad == 1:
-        line += " "
-    return line
+def long_line(rng, target, fill=None, comment=None, linebuf=2048):
+    """a line of exactly `target` bytes: a FEW SHORT names in long runs of separators (blank, tab and comma all
+    separate hosts in a wcoll line), names placed ACROSS the reader's buffer boundaries (multiples of
+    linebuf-1) and elsewhere; optionally the tail is a comment.  The long-LINE dimension is what this property
+    needs: names stay short (far below hostlist.c's 1023-byte token limit) and the resulting host list stays far
+    below the 1024-byte buffer `pdsh -Q` prints through."""
+    fill = fill or rng.choice([" ", "\t", ",", "mixed", " ", ","])
+    if fill == "mixed":
+        chars = []
+        while len(chars) < target:
+            chars += [rng.choice(" \t,")] * rng.randrange(1, 400)
+        chars = chars[:target]
+    else:
+        chars = [fill] * target
+    taken = []          # (start, end) of placed names, kept one separator apart
+
+    def place(start, name):
+        end = start + len(name)
+        if start < 0 or end > target or any(start <= e and end >= st for st, e in taken):
+            return False
+        chars[start:end] = list(name)
+        taken.append((start, end))
+        return True
+    seq = rng.randrange(1, 9000)
+    step = linebuf - 1
+    bounds = [k * step for k in range(1, target // step + 1)]
+    share = min(1.0, 10.0 / max(1, len(bounds)))
+    for bnd in bounds:
+        if rng.random() < share or bnd == bounds[0]:
+            name = "node%04d" % seq
+            seq += 1
+            place(bnd - rng.randrange(1, len(name)), name)          # the name straddles the boundary
+    for _ in range(rng.randrange(0, 5)):
+        name = rng.choice(["node%04d", "n%04d-ib", "r%04d"]) % seq
+        seq += 1
+        place(rng.choice([0, target - len(name), rng.randrange(0, max(1, target - len(name)))]), name)
+    if comment is None:
+        comment = rng.random() < 0.25
+    if comment and target > 12:
+        pos = rng.randrange(1, target)
+        while any(st <= pos < e for st, e in taken):
+            pos += 1
+        if pos < target:
+            chars[pos] = "#"
+    if chars[0] == "#":
+        chars[0] = " "
+    return "".join(chars)
 
 
 def gen_case(rng, stream, casedir):
-    topdir = rng.choice(["", "", "t", "t/u"])
+    topdir = rng.choice(["", "t", "t", "t/u"])          # pdsh runs in the case directory: mostly NOT the top file's
     if stream == "colon":
         topdir = rng.choice(["c:d", "t/c:d", "c:"])
     style = rng.choice(["rel", "rel", "dot", "abs"])
@@ -209,9 +237,18 @@ def gen_case(rng, stream, casedir):
     names = list(NAMES[:nfiles])
     place = {}
     ref = {}
+    decoys = {}
     for n in names:
-        where = "top" if n == "A" else rng.choices(["top", "sub", "other"], [60, 20, 20])[0]
-        if where == "top":
+        where = "top" if n == "A" else rng.choices(["top", "sub", "other", "hidden"], [45, 17, 18, 20])[0]
+        if where == "hidden":
+            # names that merely START with dots (hidden file / hidden sub-directory next to the wcoll file): they
+            # are NOT `./` or `../` paths and must be looked up in the directory of the command-line file
+            nm = rng.choice([".extra", "..racks", ".d/list", "..h/", ".", "..", "...", ".x.", "..d/.e/"]) + n
+            place[n] = (topdir + "/" if topdir else "") + nm
+            ref[n] = nm
+            if topdir and rng.random() < 0.6:
+                decoys[nm] = "decoy-%s\n" % n.lower()       # same name in the current directory: must not be used
+        elif where == "top":
             place[n] = (topdir + "/" if topdir else "") + n
             ref[n] = n
         elif where == "sub":
@@ -274,7 +311,7 @@ def gen_case(rng, stream, casedir):
         lines = []
         inc = list(edges[n])
         rng.shuffle(inc)
-        nl = rng.randrange(0, 6)
+        nl = rng.randrange(0, 6 if nfiles < 6 else 4)
         slots = sorted(rng.randrange(0, nl + 1) for _ in inc)
         k = 0
         for i in range(nl + 1):
@@ -310,6 +347,9 @@ def gen_case(rng, stream, casedir):
         rd = n not in unreadable
         disk[place[n]] = (rd, files[n])
         fs[resolved(n)] = (rd, files[n])
+    for nm, content in decoys.items():
+        if nm not in disk:
+            disk[nm] = (True, content)
     fs_top = dict(fs)
     if "A" not in missing:
         fs_top[top_cmd] = ("A" not in unreadable, files["A"])
@@ -424,7 +464,7 @@ def run_real(pdsh, case, use_exec=False, attempt=0):
                 shutil.rmtree(case["casedir"], ignore_errors=True)
                 return run_real(pdsh, case, use_exec=True)
             hosts = last.split(",") if last else []
-    res = {"rc": p.returncode, "hosts": hosts, "err": err[-400:],
+    res = {"rc": p.returncode, "hosts": hosts, "err": err[-400:], "via_exec": use_exec,
            "nwarn": err.count("warning:") - err.count("not parsed"),
            "nmulti": err.count("included multiple times"),
            "nohosts": "no remote hosts specified" in err}
@@ -502,9 +542,26 @@ def judge(ctx, pdsh, cases, mode, linebuf):
         if len(f) != 6 or f[0] != "ok":
             return 0
         return sum(len(h) + 1 for e in unl(f[3]) for h in expand_expr(e))
-    big = [predicted_bytes(ml) > 900 or max_line(c) > 900 for c, ml in zip(cases, mlines)]
+    def spec_bytes(c):
+        sp = spec_assemble(c) if c["stream"] not in ("malformed", "colon") else ("error",)
+        return sum(len(h) + 1 for e in sp[1] for h in expand_expr(e)) if sp[0] == "ok" else 0
+    # never observe a list that may come near 1024 bytes through `-Q`
+    big = [max(predicted_bytes(ml), spec_bytes(c)) > 850 for c, ml in zip(cases, mlines)]
+
+    def observe(cb):
+        c, use_exec = cb
+        r = run_real(pdsh, c, use_exec=use_exec)
+        if r["rc"] == "timeout" or (isinstance(r["rc"], int) and (r["rc"] < 0 or r["rc"] > 1)):
+            # a crash is reported only if it is deterministic: run the same command once more
+            r2 = run_real(pdsh, c, use_exec=use_exec)
+            if r2["rc"] == r["rc"]:
+                r["deterministic_crash"] = True
+                return r
+            r2["flaky_first_rc"] = r["rc"]
+            return r2
+        return r
     with ThreadPoolExecutor(max_workers=8) as ex:
-        reals = list(ex.map(lambda cb: run_real(pdsh, cb[0], use_exec=cb[1]), zip(cases, big)))
+        reals = list(ex.map(observe, zip(cases, big)))
     slines = ctx.model("wcoll", "".join(spec_line(c) for c in cases), args=["spec"])
     out = []
     for c, r, ml, sl in zip(cases, reals, mlines, slines):
@@ -512,7 +569,7 @@ def judge(ctx, pdsh, cases, mode, linebuf):
         out.append({"real": r, "model": ml[:300], "verdicts": v})
         if r["rc"] == "timeout" or (isinstance(r["rc"], int) and (r["rc"] < 0 or r["rc"] > 1)):
             v.append(("offender", "crash" if r["rc"] != "timeout" else "timeout",
-                      "pdsh exits %s: %s" % (r["rc"], r["err"][-200:])))
+                      "pdsh exits %s (twice in a row): %s" % (r["rc"], r["err"][-200:])))
             continue
         # ---------------- correspondence: model vs real
         mf = ml.split(" ")
@@ -612,10 +669,14 @@ def run(ctx):
     cov = {"evaluations": 0, "distinct_nontrivial": 0, "samples": [],
            "rule": "cases = generated file trees (1-12 files in the top file's directory, a sub-directory or elsewhere; "
                    "include graphs chain/tree/diamond/cycle/cycle-to-top/self/random; include names bare, sub/NAME, "
-                   "./, ../, absolute; comments, blanks, trailing comments, final line with and without newline) x "
+                   "./, ../, absolute, and names that merely start with dots (.extraB, ..racksB, .d/listB: hidden "
+                   "files/sub-directories, with decoy files of the same name in the current directory); pdsh runs in a "
+                   "directory other than the top file's in 3 of 4 cases; comments, blanks, trailing comments, final line with and without newline) x "
                    "source lists (^file, -w words, `-`/`^-` = stdin, WCOLL, comma-joined or separate -w options, all "
                    "orders); streams: plain, broken (missing / mode-000 file, run as uid 1000), long (lines around "
-                   "1023/2046/2047/2048/4095/6141 and up to 100 KiB), malformed #include lines and a ':' in the "
+                   "1023/2046/2047/2048/4095/6141 and up to 100 KiB made of a few short names placed across the buffer "
+                   "boundaries in long runs of blanks/tabs/commas, optional comment tail; every name far below 1023 "
+                   "bytes and every list far below the 1024-byte -Q buffer), malformed #include lines and a ':' in the "
                    "directory of the command-line file (both: model correspondence only); non-trivial = at least two files or a line of 2047+ bytes; distinct = "
                    "distinct (tree, command line)"}
     repo = ctx.repo_build()
@@ -648,7 +709,7 @@ def run(ctx):
             j = json.load(open(ctx.replay))
             cases = [case_from_json(j["case"]["case"], os.path.join(base, "replay"))]
         else:
-            n = 380 if ctx.quick() else 9000
+            n = 900 if ctx.quick() else 12000
             cases = []
             for i in range(n):
                 stream = rng.choices(["plain", "broken", "long", "malformed", "colon"], [48, 18, 17, 13, 4])[0]
@@ -657,15 +718,13 @@ def run(ctx):
                 # every line length around the buffer boundaries x 3 line shapes
                 k = 0
                 for L in list(range(2040, 2057)) + list(range(4090, 4101)) + list(range(6138, 6146)):
-                    for shape in ("names", "long-names", "comment-tail"):
+                    for shape in ("names", "tabs", "comment-tail"):
                         if shape == "names":
-                            line = long_line(rng, L)
-                        elif shape == "long-names":
-                            # long names, but below hostlist.c's 1023-byte token limit (another property's defect)
-                            line = ",".join("h" * 500 for _ in range(L // 501 + 1))[:L]
-                            line = line.rstrip(",") + ("" if not line.endswith(",") else "z")
-                        else:
-                            line = "host1 #" + ",".join("c" * 99 for _ in range(L // 100 + 1))[:L - 7]
+                            line = long_line(rng, L, fill=",", comment=False)
+                        elif shape == "tabs":
+                            line = long_line(rng, L, fill="\t", comment=False)
+                        elif shape == "comment-tail":
+                            line = "host1 #" + long_line(rng, L - 7, fill=" ", comment=False)
                         content = "first\n" + line + "\nlast\n"
                         cases.append({"stream": "long", "shape": "boundary", "disk": {"A": (True, content)},
                                       "fs": {"A": (True, content)}, "sources": [("f", "A")], "wargs": ["^A"],
@@ -689,6 +748,10 @@ def run(ctx):
                 dist["with_stdin"] += 1 if c["stdin"] is not None else 0
                 dist["with_env"] += 1 if c["env"] is not None else 0
                 dist["skips"] += r.get("nmulti", 0)
+                if "flaky_first_rc" in r:
+                    dist["crash_not_reproduced_on_rerun"] = dist.get("crash_not_reproduced_on_rerun", 0) + 1
+                    ctx.notes.append("pdsh exited %s once and normally on the re-run: %s" % (r["flaky_first_rc"], c["wargs"]))
+                dist["observed_through_exec"] = dist.get("observed_through_exec", 0) + (1 if r.get("via_exec") else 0)
                 ml = max_line(c)
                 if ml >= 2047:
                     dist["max_line_ge_2047"] += 1
